@@ -296,6 +296,31 @@ func (e *c04env) observe(what string, ops []string, human []string, mustHave map
 			bad = fmt.Sprintf("acknowledged blob #%d is not enumerated", id)
 		}
 	}
+	// paging: from every listed ref (packed or loose) as the cursor, pages of 1, 2 and 3 continue the full listing exactly
+	if bad == "" && err == nil {
+		var full []blob.SizedRef
+		blobserver.EnumerateAll(ctxb, e.sto, func(sb blob.SizedRef) error { full = append(full, sb); return nil })
+		for i := -1; i < len(full) && bad == ""; i++ {
+			cursor := ""
+			if i >= 0 {
+				cursor = full[i].Ref.String()
+			}
+			for limit := 1; limit <= 3 && bad == ""; limit++ {
+				got, err := enumAll(e.sto, cursor, limit)
+				want := full[i+1:]
+				if len(want) > limit {
+					want = want[:limit]
+				}
+				ok := err == nil && len(got) == len(want)
+				for k := 0; ok && k < len(got); k++ {
+					ok = got[k] == want[k]
+				}
+				if !ok {
+					bad = fmt.Sprintf("enumerate after %q limit %d gives %d blobs (err %v) that are not the next %d of the full listing", cursor, limit, len(got), err, len(want))
+				}
+			}
+		}
+	}
 	// raw state below
 	var smallIDs, rowIDs []string
 	e.small.mu.Lock()
